@@ -1,7 +1,9 @@
 package harness
 
 import (
+	"context"
 	"google.golang.org/protobuf/proto"
+	"verif.local/simrt"
 
 	pb "github.com/bartossh/Computantis/src/protobufcompiled"
 )
@@ -14,7 +16,8 @@ func (w *World) installByzantineRelay(r *prng) {
 	b := r.Intn(len(w.Nodes))
 	byz[b] = true
 	w.Byz = byz
-	mode := r.Intn(7)
+	mode := r.Intn(8)
+	simrt.Logf("case", "byzantine relay n%d class %d", b, mode)
 	honestSigs := map[string]*pb.Gossiper{} // address -> a valid entry lifted from some earlier item
 	w.Net.Mutate = func(from, to int, kind string, msg proto.Message) proto.Message {
 		var gs *[]*pb.Gossiper
@@ -42,7 +45,7 @@ func (w *World) installByzantineRelay(r *prng) {
 			}
 			return nil
 		}
-		w.fault("byz-relay:" + []string{"garbage", "honest-address-bad-signature", "lifted-signature", "own-signature-under-honest-address", "lists-target", "lists-all-neighbours", "duplicates"}[mode])
+		w.fault("byz-relay:" + []string{"garbage", "honest-address-bad-signature", "lifted-signature", "own-signature-under-honest-address", "lists-target", "lists-all-neighbours", "duplicates", "worthless-message-with-item-hash"}[mode])
 		adv := w.Nodes[from].W
 		switch mode {
 		case 0:
@@ -88,6 +91,33 @@ func (w *World) installByzantineRelay(r *prng) {
 			for _, addr := range as {
 				*gs = append(*gs, &pb.Gossiper{Address: addr, Digest: w.rng.Bytes(32), Signature: w.rng.Bytes(64)})
 			}
+		case 7:
+			// before it forwards the item the relay sends the target something worthless that names the item's
+			// hash (and lists the target for good measure): the target refuses that - and must still take the
+			// item itself, from the relay and from everybody else
+			if len(item) != 32 {
+				return msg
+			}
+			if len(*gs) == 1 && (*gs)[0] != nil && (*gs)[0].Address == w.Nodes[from].Addr {
+				return msg // the relay's own item: an origin that sabotages its own item proves nothing
+			}
+			zero := make([]byte, 32)
+			lst := []*pb.Gossiper{{Address: w.Nodes[to].Addr, Digest: zero, Signature: zero}}
+			tgt := w.Nodes[to]
+			if !tgt.Alive {
+				return msg
+			}
+			if _, isTrx := msg.(*pb.TrxMsgGossip); isTrx {
+				w.asNode(tgt, func() {
+					tgt.Goss.Server().GossipTrx(context.Background(), &pb.TrxMsgGossip{Trx: &pb.Transaction{Hash: item, Spice: &pb.Spice{}}, Gossipers: lst})
+				})
+			} else {
+				w.asNode(tgt, func() {
+					tgt.Goss.Server().GossipVrx(context.Background(), &pb.VrxMsgGossip{Vertex: &pb.Vertex{Hash: item, LeftParentHash: zero, RightParentHash: zero,
+						Transaction: &pb.Transaction{Hash: zero, Spice: &pb.Spice{}}}, Gossipers: lst})
+				})
+			}
+			return msg
 		default:
 			*gs = append(*gs, *gs...)
 		}
